@@ -59,7 +59,9 @@ def race_cases(rng, thorough):
     for s in rng.sample(a_first, 120 if thorough else 40):
         out.append(["par %s 0 new-shm 0 m1 %d ; 1 new-shm 1 m1 100" % (s, 2 * P), "obs", "0 lock 0", "1 lock 1", "obs"])
     # a creator that fails (size 0) next to a creator that succeeds: the failing one must not remove the other's name
-    for s in rng.sample(list(ipc.schedules(6, 5)), 120 if thorough else 50):
+    # … in particular when the other one creates the name right after the failing one's shm_unlink
+    targeted = ["aaaaab" + t for t in ("bbbba", "bbbab", "bbabb", "babbb", "abbbb")]
+    for s in targeted + rng.sample(list(ipc.schedules(6, 5)), 120 if thorough else 50):
         out.append(["par %s 0 new-shm 0 m2 0 ; 1 new-shm 1 m2 %d" % (s, P), "obs", "2 new-shm 2 m2 0", "2 wr 2 0 9", "1 rd 1 0", "obs"])
     return out
 
@@ -100,7 +102,7 @@ def run(chk):
     if thorough:
         for (n, it) in ((4, 20000), (8, 8000), (16, 3000)):
             ipc.run_stress(chk, exe, ["stress-shm", n, it], "C07 lock stress")
-    R.conclude(BASIC + crash + eintr + races[:200] + rnd, "C07 shared memory")
+    R.conclude(BASIC + races[-60:] + crash + eintr + races[:-60] + rnd, "C07 shared memory")
     chk.cov["harness_leftovers_in_dev_shm"] = fam.leftovers
     chk.cov["rule"] = ("op files over 3 worker processes x 4 names x 16 handles: p_shm_new with sizes 1..3 pages (re-open smaller / larger / zero / equal), byte stores and loads at offsets biased to 0, size-1 and page borders, "
                        "lock/unlock, take_ownership, free, SIGKILL; after every op: reported size, first bytes and checksum through every live handle, /proc/<pid>/maps entries of the segment per process, "
